@@ -32,6 +32,7 @@ NL = c11.NL
 def gen_spec(rng):
     spec = c11.gen_spec(rng)
     spec['parents'] = [None]; spec['with_h'] = False; spec['with_p'] = False
+    if spec['pk'] in ('relpk', 'relpk1'): spec['pk'] = 'composite'
     return spec
 
 
